@@ -200,11 +200,12 @@ def _verify_output(text, n, clauses, header_on, varnames_on, case, what, path=No
         lines.pop()
     for ln in lines:
         if ln.strip() == '':
-            raise Violation("{}: blank line in the output (neither comment, problem line nor clause)".format(what))
+            raise Violation("{}: blank line in the output (neither comment, problem line nor clause)".format(what),
+                            signature=sig)
         if ln[:1] == 'c':
             ncomments += 1
             if not (ln.rstrip('\r') == 'c' or ln.startswith('c ')):
-                raise Violation("{}: comment line {!r} does not start with 'c '".format(what, ln[:60]))
+                raise Violation("{}: comment line {!r} does not start with 'c '".format(what, ln[:60]), signature=sig)
     if not header_on and not varnames_on and ncomments:
         raise Violation("{}: {} comment lines although header and variable names were switched off".format(
             what, ncomments))
